@@ -15,25 +15,14 @@ mod util;
 
 use vcommon::{Args, Ctx};
 
-/// Set once an unlisted violation has been reported (the watchdog then exits 1, not 2).
-static VIOLATION_SEEN: std::sync::atomic::AtomicBool = std::sync::atomic::AtomicBool::new(false);
-
-/// After a violation the remaining (more expensive) stages are skipped: a broken hook or
-/// scheduler can make an exhaustive simulation endless.
-fn violated(ctx: &Ctx) -> bool {
-    let v = ctx.violations() > 0;
-    if v {
-        VIOLATION_SEEN.store(true, std::sync::atomic::Ordering::SeqCst);
-    }
-    v
-}
+use util::violated;
 
 /// A hang is never a verdict: after the budget the process exits 2 (inconclusive), or 1 if a
 /// violation had already been printed.
 fn watchdog(prop: String, secs: u64) {
     std::thread::spawn(move || {
         std::thread::sleep(std::time::Duration::from_secs(secs));
-        let seen = VIOLATION_SEEN.load(std::sync::atomic::Ordering::SeqCst);
+        let seen = util::VIOLATION_SEEN.load(std::sync::atomic::Ordering::SeqCst);
         println!("INCONCLUSIVE property={prop} watchdog: no result after {secs}s (hang or overload)");
         std::process::exit(if seen { 1 } else { 2 });
     });
@@ -50,7 +39,7 @@ fn main() {
         c40::supervise(args);
     }
     let mut ctx = Ctx::new(args);
-    watchdog(ctx.prop().to_string(), ctx.tier().pick(50 * 60, 8 * 3600));
+    watchdog(ctx.prop().to_string(), ctx.tier().pick(90 * 60, 10 * 3600));
     // harness / infrastructure trouble is never a verdict
     ctx.soft_prefixes = vec!["harness:".to_string()];
     // a vacuous run must not look like a pass (DESIGN section 5)
